@@ -611,3 +611,31 @@ Theorem C03_fragment_autolink_instance :
     $"see <a href=" ++ [34%Z] ++ $"http://user@host.ex/p" ++ [34%Z] ++ $">http://user@host.ex/p</a>.".
 Proof. vm_compute. repeat split; reflexivity. Qed.
 Print Assumptions C03_fragment_autolink_instance.
+
+(* an inline link whose DESTINATION STANDS BETWEEN ANGLE BRACKETS (Proofs/AngleLink.v): pre [w](<dest>) post - the destination may hold
+   spaces and parentheses (it begins with a character that is neither a letter nor "/", "!", "?", holds no "@", "<", ">", backslash,
+   line ending; the text after it holds no "@").  match_link_dest's loop for the angle form runs to the ">"; the Link has dest_type
+   angle_uri, so the Markdown renderer writes the brackets back.  The "<" is where AutoLink.pattern and HtmlSpan.pattern begin: both are
+   PROVED TO FAIL there (al_fails: the e-mail alternative's greedy local part meets no "@" wherever it stops - greedy_none_all;
+   hs_fails_first: none of the six alternatives can read the character after "<"), so the link is the only candidate *)
+From Mistletoe Require Import Proofs.AngleLink.
+Theorem C03_angle_link_in_sentence : forall types fn pre w c0 d post,
+  ref_spans types = true -> auto_spans types = true -> alink_ok pre w c0 d post = true ->
+  Inline.tokenize_inner types fn (pre ++ [91%Z] ++ w ++ [93%Z; 40%Z] ++ [60%Z] ++ (c0 :: d) ++ [62%Z] ++ [41%Z] ++ post) =
+  EmphSentence.raw_if pre ++ [alink_of w (c0 :: d)] ++ EmphSentence.raw_if post.
+Proof. exact angle_link_in_sentence. Qed.
+Print Assumptions C03_angle_link_in_sentence.
+
+Theorem C03_angle_link_instance :
+  (alink_ok ($"see ") ($"the site") 46 ($"/my docs/a (b).html") ($", ok") = true) /\
+  (alink_ok [] ($"x") 35 ($"part one") [] = true) /\ (alink_ok [] ($"x") 50 ($"024/q r") ($".") = true) /\
+  (alink_ok [] ($"x") 104 ($"ttp://a b") [] = false) /\ (alink_ok [] ($"x") 47 ($"a") [] = false) /\ (alink_ok [] ($"x") 46 ($"/a ") [] = false) /\
+  (alink_ok [] ($"x") 46 ($"/a@b") [] = false) /\ (alink_ok [] ($"x") 46 ($"/a>b") [] = false) /\ (alink_ok [] ($"x") 46 ($"/a") ($" me@ex.am") = false) /\
+  (let x := ILinkA $"the site" 46 $"/my docs/a (b).html" in
+   let t := FQuote [FOne 115 $"ee " x $", ok"; FItem (MBullet 45) 1 [FOne 115 $"ee " x []]] in
+   wf_b t = true /\
+   text_of (spell t) = [ $"> see [the site](<./my docs/a (b).html>), ok" ++ [10%Z]; $"> " ++ [10%Z]; $"> - see [the site](<./my docs/a (b).html>)" ++ [10%Z] ] /\
+   html_f (mkHopts false false) true (FOne 115 $"ee " x $", ok") =
+     $"see <a href=" ++ [34%Z] ++ $"./my%20docs/a%20(b).html" ++ [34%Z] ++ $">the site</a>, ok").
+Proof. vm_compute. repeat split; reflexivity. Qed.
+Print Assumptions C03_angle_link_instance.
